@@ -473,6 +473,14 @@ func (e *Enc) wf(term string, t types.Type, depth int) []string {
 			out = append(out, fmt.Sprintf("(<= 0 %s)", term))
 		case types.Int32:
 			out = append(out, fmt.Sprintf("(and (<= (- 2147483648) %s) (<= %s 2147483647))", term, term))
+		case types.Int, types.Int64:
+			// (a machine value wherever wf is stated: parameters, loads, results of calls
+			// and of type assertions; arithmetic on it stays mathematical). Opt-in per
+			// function (`intrange`): the extra facts slow the large renderer functions.
+			if e.con == nil || !e.con.IntRange {
+				break
+			}
+			out = append(out, fmt.Sprintf("(and (<= (- 9223372036854775808) %s) (<= %s 9223372036854775807))", term, term))
 		case types.String:
 			out = append(out, fmt.Sprintf("(and (<= 0 (s_len %s)) (<= 0 (s_off %s)))", term, term))
 		}
